@@ -18,12 +18,15 @@ from vlib import cz, cn, clist, copt, cnat
 RUNNER = "tablerect_runner.py"
 ERRMAP = {"KeyError": "EKey", "IndexError": "EIndex", "TypeError": "EType", "ValueError": "EValue", "NameError": "EName"}
 POOL = ["a", "b", "c", "d", "e"]
-KINDS = ["float", "int", "str", "obj"]
+KINDS = ["float", "int", "str", "obj", "vec2", "vec3", "mat"]    # vec/mat: one vector / 2x2 matrix per row
+WIDTH = {"vec2": 2, "vec3": 3, "mat": 4}
 DERIVE = ("rows", "cols", "addself", "addrows", "mul", "copy", "t", "concat")
 EXPRS = ["{x}+{y}", "{x}+2*{y}", "{x}-{y}", "{x}*{y}", "2*{x}", "-{x}", "({x}+{y})*{x}", "{x}-3*{y}+1"]
 
 
 def rand_vals(rng, kind, n):
+    if kind in WIDTH:
+        return [[float(rng.randint(-9, 9)) for _ in range(WIDTH[kind])] for _ in range(n)]
     if kind == "float":
         return [float(rng.choice([rng.uniform(-10, 10), rng.randint(-3, 3), 0.1 * rng.randint(-20, 20)])).hex() for _ in range(n)]
     if kind == "int":
@@ -186,7 +189,7 @@ def gen_case(rng, maxops=6):
             names = tr.names()
             key = rng.choice(names + sorted(tr.scalars) * (4 if focus else 2) + POOL + ["s1", "s2"])
             kinds = dict(tr.cols)
-            kind = kinds.get(key, rng.choice(KINDS if key in POOL else ["float", "int"]))
+            kind = kinds.get(key, rng.choice(KINDS))
             y = rng.random()
             if key in names:
                 if y < 0.7:
@@ -405,7 +408,8 @@ def shrink(case):
 
 def run(ctx):
     n = ctx.pick(4000, 150000)
-    ctx.rule = (f"{n} random tables (0..8 rows; index + 0..4 float/int/string/object columns; 0-2 scalars; sometimes a non-column array; "
+    ctx.rule = (f"{n} random tables (0..8 rows; index + 0..4 float/int/string/object columns and columns holding one vector or 2x2 matrix per row "
+                "(shapes (n,2), (n,3), (n,2,2); length = first axis); 0-2 scalars; sometimes a non-column array; "
                 "7% malformed constructor arguments) x random chains of <=6 (<=8 with stays) operations among rows[positions|slice|mask], cols[names and "
                 "arithmetic expressions], +, *, Table.concatenate, _copy, _t, assignment of arrays/scalars to keys drawn from one pool "
                 "(existing column, scalar entry -> column promotion, new column, new scalar, wrong-length array), del, t['expr'] / t.cols['expr']; "
